@@ -44,7 +44,7 @@ def prepare(state, tier, base_seed):
     here = os.path.dirname(os.path.abspath(__file__))
     p = subprocess.run(
         [sys.executable, "-B", os.path.join(here, "zygote.py"),
-         str(base_seed)],
+         str(base_seed), str(12 if tier == "thorough" else 7)],
         capture_output=True, text=True, timeout=600)
     if p.returncode != 0:
         raise HarnessError("zygote failed: %s" % p.stderr[-2000:])
